@@ -167,19 +167,28 @@ func H_C04_Cluster() {
 	vOpt("sched-det", 1)
 	vOpt("krandom-det", 1)
 	n := 3
-	tcp := vPick(2) == 1
+	tcp := vPick(2) == 1 // with the TCP fallback a lost UDP answer is masked (a warning is logged); without it, it is not
 	c := vNewCluster(n, func(i int, conf *Config) { conf.DisableTcpPings = !tcp })
 	half := int(c.f[0].m.config.ProbeTimeout / 2)
 	l := time.Duration(vRange(0, half-1))
 	c.lat = func(src, dst int) time.Duration { return l }
-	// rotate the tables so that the probe targets of the first round differ per node
+	// rotate the tables so that the probe targets of the first round differ (quick: one shared rotation; thorough:
+	// one per node)
+	rot := vPick(3)
 	for i, f := range c.f {
-		f.m.probeIndex = (i + vPick(3)) % 3
+		f.m.probeIndex = (i + rot) % 3
+		if vTier() == 1 && i > 0 {
+			f.m.probeIndex = (i + vPick(3)) % 3
+		}
 	}
-	rounds := 3 + vTier()
-	op := vPick(4)      // 0 none, 1 node 1 updates its metadata, 2 node 2 leaves, 3 node 0 queues a user broadcast
-	at := vPick(rounds) // the round in which the operation starts
-	pp := vPick(n + 1)  // who runs a push/pull in round 1 (n = nobody)
+	rounds := 3
+	op := vPick(4) // 0 none, 1 node 1 updates its metadata, 2 node 2 leaves, 3 node 0 queues a user broadcast
+	at := 0        // the round in which the operation starts (thorough: any)
+	pp := []int{n, 0}[vPick(2)] // who runs a push/pull in round 1 (n = nobody; thorough: anybody)
+	if vTier() == 1 {
+		at = vPick(rounds)
+		pp = vPick(n + 1)
+	}
 	leaver := -1
 	opDone := false
 	var opErr error
